@@ -287,3 +287,29 @@ Example ex_early_return_finishes :
     mkEv 0 (ACmd 2) (KLbDispose 0);
     mkEv 0 (ACmd 2) (KReturn 2 CROk)]) = true.
 Proof. vm_compute. reflexivity. Qed.
+
+(** ** The slack of the view, made concrete (NOT a behaviour of /repo — there Service.Drain waits for its own two
+    calls): in [rec_pause], right after the snapshots of the pause's own DrainAll call 0 (children 41 and 40 still
+    in their Drain calls), ANOTHER DrainAll call 7 on the same balancer is entered by goroutine 60, as an overlapping
+    command on a copy of the service object would do; its children find both targets draining and return at once
+    (D11); call 7 is done; and the view accepts the pause's KSvcDrainDone and its return although call 0 is open.
+    (L3) holds of this trace with [w] = 7: it says "SOME DrainAll call on [lb] entered after the KSvcDrain". *)
+Definition slack : trace := firstn 61 rec_pause ++ [
+  mkEv S2 (AGo 60) (KDrainAll 0 7);
+  mkEv S2 (AGo 61) (KDrainChild 1 7);
+  mkEv S2 (AGo 61) (KStateSet 1 TDraining TDraining);
+  mkEv S2 (AGo 61) (KDrainBegin 1 TDraining 5);
+  mkEv S2 (AGo 62) (KDrainChild 0 7);
+  mkEv S2 (AGo 62) (KStateSet 0 TDraining TDraining);
+  mkEv S2 (AGo 62) (KDrainBegin 0 TDraining 5);
+  mkEv S2 (AGo 60) (KDrainAllDone 0 7);
+  mkEv S2 (ACmd 2) (KSvcDrainDone 0);
+  mkEv S2 (ACmd 2) (KReturn 2 CROk)].
+Example ex_slack_of_the_view :
+  accepted slack = true /\ M5full.accepted slack = true /\
+  exists s a k, run step init slack = Some s /\ nget (calls s) 0 = Some a /\ a_done a = None /\
+    nget (kids s) 41 = Some k /\ k_ph k = KOpen 55.
+Proof.
+  split; [vm_compute; reflexivity|]. split; [vm_compute; reflexivity|].
+  eexists. eexists. eexists. split; [vm_compute; reflexivity|]. repeat split; reflexivity.
+Qed.
